@@ -6,7 +6,7 @@ CONSTANTS MaxLen, EmitOn
 Units == {<<SQ>>, <<DQ>>, <<BS>>, <<DOL>>, <<BT>>, <<LP>>, <<RP>>, <<LB>>, <<RB>>, <<COL>>, <<COMMA>>, <<NL>>, <<9>>, <<97>>, <<195, 169>>,
           <<226, 128, 152>>, <<226, 128, 153>>}
 Shells == {"bash", "fish", "zsh", "powershell", "elvish", "nushell"}
-Slots == {"about", "help", "pvhelp"}
+Slots == {"about", "help", "pvhelp", "poshelp"}
 VARIABLES units
 vars == <<units>>
 Init == units = <<>>
